@@ -8,6 +8,8 @@ for p in sorted(glob.glob(os.path.join(root, "cfg", "C*.json"))):
     c = json.load(open(p))
     if what == "drivers" and c.get("driver"):
         out.append(c["driver"])
+    if what == "drivers":
+        out += [a["driver"] for a in c.get("also", []) if isinstance(a, dict) and a.get("driver")]
     if what == "props":
         out += c["lean_props"]
 print(" ".join(dict.fromkeys(out)))
